@@ -26,6 +26,10 @@ func pairCase(l *lgen, a, b geom.Geometry, mapKind int) Case {
 	switch mapKind {
 	case 1:
 		c["t"] = l.randSimil().toCase()
+	case 3:
+		c["t"] = l.randDyadic(false).toCase()
+	case 4:
+		c["t"] = l.randDyadic(true).toCase()
 	case 2:
 		// general-position float image: rotation by an arbitrary angle, non-dyadic scale and offset
 		c["rot"] = []interface{}{bitsHex(l.r.Float64() * 2 * math.Pi), bitsHex(0.1 + 99.9*l.r.Float64()),
@@ -113,6 +117,8 @@ func relateGen(r *rand.Rand, n int, tier string, emit func(Case)) {
 			mk = 1
 		case 2:
 			mk = 2
+		case 3:
+			mk = 3
 		}
 		emit(pairCase(l, a, b, mk))
 	}
